@@ -166,7 +166,7 @@ def run_impl(table: Table, text: bytes, depth: int):
 # strategies for hit configurations
 # ---------------------------------------------------------------------------------------------
 TYPES = ["", "t1", "t2"]
-KINDS = ["plain", "plain", "case", "dec", "swap", "kids", "deckids", "restate"]
+KINDS = ["plain", "plain", "case", "dec", "swap", "kids", "deckids", "restate", "empty"]
 _SWAP = bytes.maketrans(b"abAB", b"baBA")
 
 
@@ -178,6 +178,8 @@ def make_hit(value: bytes, s: int, e: int, kind: str, typ: str, variant: int, pa
         return H(typ, sl.swapcase(), "cs", s, e)
     if kind == "dec":
         return H(typ, (b"<" + sl + b">") if variant % 2 == 0 else (sl[::-1] + b"x"), "d", s, e)
+    if kind == "empty":
+        return H(typ, b"", "e", s, e)  # a decoder may return an empty result: it is never kept and must not disturb anything
     if kind == "swap":
         # a decoding that keeps the length and carries no label (nothing but the value tells it from a plain hit)
         return H(typ, sl.translate(_SWAP), "", s, e)
